@@ -334,6 +334,93 @@ def cache_diff(d, lines, label):
     return out[:6], ans
 
 
+# ---- the pixel-count / peak cache machine of ADModel/CachePix.lean -------------------------------------
+
+def impl_pcache_state(d, case):
+    shape = tuple(case['shape'])
+    fb = case['fb']
+
+    def pk(x):
+        return None if x is None else (impl.flat(x[0], shape), impl.to_k(x[1], fb))
+    out = {}
+    for sid, s in d._structures_dict.items():
+        out[int(sid)] = {'par': None if s.parent is None else int(s.parent.idx), 'kids': [int(c.idx) for c in s.children],
+                         'nown': len(s._indices), 'npix': None if s._npix_total is None else int(s._npix_total),
+                         'peak': pk(s._peak), 'peaksub': pk(s._peak_subtree)}
+    return out
+
+
+def _pk(txt):
+    if txt == '-':
+        return None
+    a, b = txt.split(':')
+    return (int(a), int(b))
+
+
+def parse_pcache(lines):
+    st, ans, spec = {}, None, {}
+    for l in lines:
+        if l.startswith('ans '):
+            ans = l[4:]
+        elif l.startswith('c '):
+            f = dict(x.split('=', 1) for x in l[2:].split())
+            st[int(f['id'])] = {'par': None if f['par'] == '-' else int(f['par']), 'kids': [] if f['kids'] == '-' else [int(x) for x in f['kids'].split(',')],
+                                'nown': int(f['nown']), 'npix': None if f['npix'] == '-' else int(f['npix']), 'peak': _pk(f['peak']), 'peaksub': _pk(f['peaksub'])}
+        elif l.startswith('s '):
+            f = dict(x.split('=', 1) for x in l[2:].split())
+            spec[int(f['id'])] = {'npix': int(f['npix']), 'peak': _pk(f['peak']), 'peaksub': _pk(f['peaksub'])}
+        elif l.startswith('bad-op'):
+            return None, l, None
+    return st, ans, spec
+
+
+def pcache_diff(d, case, drv, lines, label, fill_state=True):
+    """links and own counts always; fill state of the three caches when no user criterion touched them;
+    and always: whatever the implementation has cached equals what the links and own lists say (model spec)"""
+    st, ans, _ = parse_pcache(lines)
+    if st is None:
+        return ['%spixel-cache model rejected the request: %s' % (label, ans)], None
+    out = []
+    mine = impl_pcache_state(d, case)
+    _, _, spec = parse_pcache(drv.ask('pcache spec'))
+    for sid, c in mine.items():
+        if sid not in st:
+            out.append('%sstructure %d missing in the pixel-cache model' % (label, sid))
+            continue
+        for k in ('par', 'kids', 'nown'):
+            if c[k] != st[sid][k]:
+                out.append('%spixel-cache model, structure %d: %s impl=%r model=%r' % (label, sid, k, c[k], st[sid][k]))
+        for k in ('npix', 'peak', 'peaksub'):
+            if fill_state and c[k] != st[sid][k]:
+                out.append('%scache state of structure %d: _%s impl=%r model=%r' % (label, sid, k, c[k], st[sid][k]))
+            if c[k] is not None and sid in spec and c[k] != spec[sid][k]:
+                out.append('%sstructure %d has %s cached as %r; its links and pixels give %r' % (label, sid, k, c[k], spec[sid][k]))
+    return out[:6], ans
+
+
+def mirror_pix_queries(d, case, drv, kinds, res, label, fill_state):
+    shape = tuple(case['shape'])
+    for s in list(d):
+        if 'npix' in kinds:
+            got = str(int(s.get_npix()))
+            diffs, ans = pcache_diff(d, case, drv, drv.ask('pcache q npix %d' % s.idx), label, fill_state)
+            if ans is not None and ans != got:
+                diffs.append('%sget_npix of structure %d: impl %s, cache model %s' % (label, s.idx, got, ans))
+            res['corr'] += diffs
+            if diffs:
+                return
+        if 'peak' in kinds:
+            for sub in (True, False):
+                pk = s.get_peak(subtree=sub)
+                got = '%d:%d' % (impl.flat(pk[0], shape), impl.to_k(pk[1], case['fb']))
+                diffs, ans = pcache_diff(d, case, drv, drv.ask('pcache q peak %d %d' % (s.idx, 1 if sub else 0)), label, fill_state)
+                if ans is not None and ans != got:
+                    diffs.append('%sget_peak(subtree=%s) of structure %d: impl %s, cache model %s' % (label, sub, s.idx, got, ans))
+                res['corr'] += diffs
+                if diffs:
+                    return
+
+
 def mirror_queries(d, drv, kinds, res, label):
     """the queries of session.warm, one at a time, on implementation and cache model"""
     for s in list(d):
@@ -347,10 +434,6 @@ def mirror_queries(d, drv, kinds, res, label):
                 res['corr'] += diffs
                 if diffs:
                     return
-        if 'npix' in kinds:
-            s.get_npix()
-        if 'peak' in kinds:
-            s.get_peak()
     if 'newick' in kinds:
         d.to_newick()
         for s in reversed(list(d.all_structures)):
@@ -401,13 +484,20 @@ def eval_C14(item):
     changed = False
     import astrodendro.dendrogram as _dmod
     heap_ok = 'bad' not in mobs
+    # user criteria that read accessors fill the pixel caches of the leaves they examine: fill states are
+    # then not comparable (soundness of whatever is cached still is)
+    def _acc(cr):
+        return any(c[0] in ('npixacc', 'peakacc') for c in cr)
+    fill_state = not _acc(case.get('crits', [])) and not any(o[0] == 'prune' and _acc(o[3]) for o in item['ops'])
     if heap_ok:
         res['corr'] += cache_diff(d, drv.ask('cache init %s' % (','.join(str(k) for k in d._structures_dict.keys()) or '-')), 'after compute: ')[0]
+        res['corr'] += pcache_diff(d, case, drv, drv.ask('pcache init'), 'after compute: ', fill_state)[0]
     for i, op in enumerate([('compute',)] + list(item['ops'])):
         lab = 'step %d %s: ' % (i, op[0])
         if op[0] == 'warm':
             if heap_ok:
                 mirror_queries(d, drv, op[1], res, lab)
+                mirror_pix_queries(d, case, drv, op[1], res, lab, fill_state)
             else:
                 session.warm(d, op[1])
         elif op[0] == 'plotter':
@@ -417,6 +507,11 @@ def eval_C14(item):
                     drv.ask('cache q desc %d' % t.idx)
                 if d.trunk:
                     res['corr'] += cache_diff(d, drv.ask('cache q desc %d' % d.trunk[0].idx), lab)[0]
+                # the default sort key is get_peak(subtree=True) of every trunk structure and of every child
+                for s_ in list(d):
+                    drv.ask('pcache q peak %d 1' % s_.idx)
+                if d.trunk:
+                    res['corr'] += pcache_diff(d, case, drv, drv.ask('pcache q peak %d 1' % d.trunk[0].idx), lab, fill_state)[0]
         elif op[0] == 'prune':
             before_n = len(d)
             merged = []
@@ -427,6 +522,7 @@ def eval_C14(item):
                 return orig_merge(m, index_map)
             if heap_ok and op[4]:
                 mirror_queries(d, drv, op[4], res, lab + 'warm-up: ')
+                mirror_pix_queries(d, case, drv, op[4], res, lab + 'warm-up: ', fill_state)
                 op = (op[0], op[1], op[2], op[3], [])
             _dmod._merge_with_parent = _rec
             try:
@@ -439,6 +535,7 @@ def eval_C14(item):
             if heap_ok:
                 res['corr'] += cache_diff(d, drv.ask('cache prune %s %s' % (','.join(str(x) for x in merged) or '-',
                                                                              ','.join(str(k) for k in d._structures_dict.keys()) or '-')), lab)[0]
+                res['corr'] += pcache_diff(d, case, drv, drv.ask('pcache prune %s' % (','.join(str(x) for x in merged) or '-')), lab, fill_state)[0]
         elif op[0] == 'reload':
             fmt = op[1]
             if fmt == 'fits' and case['fb'] >= 30:
@@ -458,6 +555,7 @@ def eval_C14(item):
             mobs = parse_block(drv.ask('reload'))
             if heap_ok:
                 res['corr'] += cache_diff(d, drv.ask('cache init %s' % (','.join(str(k) for k in d._structures_dict.keys()) or '-')), lab)[0]
+                res['corr'] += pcache_diff(d, case, drv, drv.ask('pcache init'), lab, fill_state)[0]
         wf = impl.forest_wellformed(d)
         if wf:
             res['pred'] += [lab + x for x in wf]
